@@ -139,3 +139,19 @@ Lemma refresh_everywhere :
   forallb (fun b => b) [Incomer_receive_refreshes; Incomer_send_refreshes;
                         IncomerTls_receive_refreshes; IncomerTls_send_refreshes] = true.
 Proof. reflexivity. Qed.
+
+(* ------------------------------------------------------------------ configuration path *)
+Lemma conn_timeout_configured tls valet configured :
+  conn_timeout (path_of tls valet) configured = configured_timeout valet configured.
+Proof. destruct tls, valet; reflexivity. Qed.
+
+Lemma clock_is_forwarded : forallb (fun b => b) clock_forwarded = true.
+Proof. reflexivity. Qed.
+
+Lemma only_if_idle_configured tls valet configured t0 evs t la :
+  0 < configured_timeout valet configured -> 0 <= t0 -> monotone evs = true ->
+  closed_idle (run (served_cfg tls valet configured) t0 evs) = Some (t, la) ->
+  t - la >= configured_timeout valet configured.
+Proof.
+  unfold served_cfg. rewrite conn_timeout_configured. apply only_if_idle_classes.
+Qed.
